@@ -1104,6 +1104,45 @@ def hoist_terminator_construction(j):
     return done
 
 
+def normalise_ctor_param_order(j):
+    """`ChannelInternal::new(bounded: bool, capacity: usize)` with its two parameters in the other order (all call sites adapted - a call
+    left in the old order does not type-check, the types differ): the locals 1 and 2 of the body and the two arguments of every call are
+    swapped back, so that `bounded` is parameter 1 as the rules (H8, L3) know it."""
+    key = 'internal::ChannelInternal::<T>::new'
+    n = 0
+    for b in j['bodies']:
+        if b['key'] != key or b.get('arg_count') != 2:
+            continue
+        t1 = str(b['locals'][1].get('ty', '')).strip()
+        t2 = str(b['locals'][2].get('ty', '')).strip()
+        if not (t1 == 'usize' and t2 == 'bool'):
+            return 0
+
+        def swap(x):
+            if isinstance(x, dict):
+                if 'l' in x and 'p' in x and isinstance(x['l'], int) and x['l'] in (1, 2):
+                    x['l'] = 3 - x['l']
+                for v in x.values():
+                    swap(v)
+            elif isinstance(x, list):
+                for v in x:
+                    swap(v)
+        for body in [b] + list(b.get('promoted') or []):
+            swap(body['blocks'])
+        b['locals'][1], b['locals'][2] = b['locals'][2], b['locals'][1]
+        n += 1
+    if not n:
+        return 0
+    for b in j['bodies']:
+        for body in [b] + list(b.get('promoted') or []):
+            for blk in body['blocks']:
+                t = blk['term']
+                if t['k'] == 'call' and t.get('fn') and t['fn'].get('path') == key and len(t['args']) == 2:
+                    t['args'] = [t['args'][1], t['args'][0]]
+                    n += 1
+    return n
+
+
 def adopt_terminator_wake(j):
     """`Signal::wake(this: *const Signal<T>, state)` moved onto the capability type that wraps the pointer
     (`impl SignalTerminator { unsafe fn finish(&self, state: u8) { let this = self.0; .. } }`): when `Signal::wake` is gone and
@@ -1475,6 +1514,10 @@ def resolve(j):
         pass
     try:
         hoist_terminator_construction(j)
+    except Exception:
+        pass
+    try:
+        normalise_ctor_param_order(j)
     except Exception:
         pass
     try:
